@@ -87,7 +87,8 @@ structure Cfg where
   fixed    : Bool := true        -- true: the code after fixes/C11-wait-misses-handover.patch; false: pinned order
 
 def bulkFull (max : Int) (l : List Task) : Bool := decide ((l.length : Int) ≥ max)
-def chunkFull (size : Task → Nat) (max : Int) (l : List Task) : Bool := decide ((((l.map size).sum : Nat) : Int) ≥ max)
+/-- chunk: the declared sizes are Go ints — any sign, any magnitude -/
+def chunkFull (size : Task → Int) (max : Int) (l : List Task) : Bool := decide ((l.map size).sum ≥ max)
 
 inductive Act
   | add (x : Task) | flush | wait      -- an idle goroutine calls the API
